@@ -11,10 +11,14 @@ the real tokens are serialized by the real parser.Serialize. Two bindings decide
 import os
 import re
 from vlib import MachineryError
-from checks.c06 import tokenizer_families
+from checks.c06 import tokenizer_families, PARSE_CFG
 
-QUICK = [("T1", 4, False), ("T2", 4, False), ("T3", 3, False), ("T4", 4, False), ("T5", 3, False), ("T6", 4, False)]
-THOROUGH = [("T1", 4, False), ("T2", 5, False), ("T3", 5, False), ("T4", 5, False), ("T5", 4, False), ("T6", 6, False)]
+QUICK = [("T1", 3, False), ("T2", 4, False), ("T3", 3, False), ("T4", 3, False), ("T5", 3, False), ("T6", 4, False),
+         ("T7", 7, False), ("T8", 4, False), ("T9", 3, True), ("T10", 4, False)]
+THOROUGH = [("T1", 4, False), ("T2", 5, False), ("T3", 5, False), ("T4", 5, False), ("T5", 4, False), ("T6", 6, False),
+            ("T7", 9, False), ("T8", 5, False), ("T9", 3, True), ("T9", 3, False), ("T10", 5, False)]
+RULES_QUICK = [("stylesheet", "full", 4), ("decls", "full", 4), ("blocks", "full", 4), ("onedecl", "imp", 5)]
+RULES_THOROUGH = [("stylesheet", "full", 5), ("rules", "full", 5), ("decls", "full", 5), ("blocks", "full", 5), ("onedecl", "imp", 6)]
 
 
 def run(ctx):
@@ -43,6 +47,22 @@ def run(ctx):
         validated += nrec
         os.remove(rp)
         os.remove(res.out_path)
+    # rule-level round trip: every parsed rule / declaration of the CssParse scenarios is serialized with the
+    # package's rule serializers (hook H1) and parsed back on its own
+    rule_rt = 0
+    for entry, fam, n in (RULES_THOROUGH if ctx.tier == "thorough" else RULES_QUICK):
+        res = ctx.tlc("CssParse", None, workers=16, cfg_text=PARSE_CFG % (n, entry, fam), timeout=1500, heap_gb=12)
+        scn, cnt, first = ctx.scenario_lines(res)
+        ver = os.path.join(ctx.scratch, "verr_%s_%s.ndjson" % (entry, fam))
+        ctx.vdrive(["c20rule", "-in", scn, "-out", ver])
+        summ = ctx.consume_verdicts(ver)
+        c = summ.get("counts", {})
+        if c.get("scenarios", 0) != cnt:
+            raise MachineryError("harness processed %d of %d rule scenarios" % (c.get("scenarios", 0), cnt))
+        rule_rt += c.get("roundtrips", 0)
+        os.remove(res.out_path)
+        os.remove(scn)
+    ctx.extra["rule_roundtrips"] = rule_rt
     ctx.traces = validated
     total = sum(ctx.extra["families"].values())
     return ctx.finish("model_checking", {
@@ -52,7 +72,9 @@ def run(ctx):
         "roundtrips_validated_by_tlc": validated,
         "rule": "every string of the CssSyntax families whose token list has no error token (counted: those with a round trip "
                 "performed); each serialisation is validated twice (real tokenizer vs spec tokens; spec tokenizer on both texts)",
-    }, assumptions=["bounded input length and alphabets", "QualifiedRule/AtRule/Declaration serializers are exercised only through their token lists"])
+    }, assumptions=["bounded input length and alphabets",
+                     "rule / declaration serializers are unexported: they are reached through the verif hook VerifSerializeCompound and their "
+                     "result is compared with the originally parsed construct (itself validated against CssParse.tla by C06)"])
 
 
 def classify(txt):
